@@ -25,6 +25,10 @@ CLAIMED = {
    technique="Coq proof over regenerated tables/threshold code + model-vs-implementation correspondence",
    design="3/C08"),
 }
+CLAIMED['C15'] = dict(
+   text="Coq theorems (props/C15.v, closed), each by induction over EVERY history of run/call/evaluate/clear_output/set_input/queue_input/clear_input operations: raw output = concatenation of the texts written since the last clear; line view = concatenation over non-silent executions of [l.rstrip() for l in text.rstrip().split('\\n')] (a silent execution adds nothing); each execution's record holds its own text; input() is FIFO, each element once, then '0'. Hand model (state machine) tied by correspondence: the real sandbox is observed after every operation of generated histories, and an oracle written from the property statement checks the observations directly.",
+   note="Trusted: Coq kernel; the abstraction of a student program to its event list (writes/prompts), computed with CPython's print semantics by the harness; is_space table (Python whitespace, exercised by the generator alphabet). Model of the repaired append_output guard. Callable input sources, real_io mode and MAXIMUM_INPUTS are not modelled.",
+   technique="Coq proof by induction over operation histories + state-machine correspondence", design="3/C15")
 REASONS = {}
 DEFAULT_REASON = "check not built yet (work in progress; see DESIGN.md section 6 for the order)"
 
